@@ -263,10 +263,15 @@ def odd_label_orbit(m, orb):
     differentiates even groups (`if not len(group) % 2` in MoleculeStereo.__differentiation) - known defect F-C01-4"""
     from collections import Counter
     c = Counter()
+    ring = set()
     for kind, centre, ends, h in labelled_centres(m):
         key = (kind, orb[centre]) if kind == 't' else (kind, frozenset((orb[centre[0]], orb[centre[1]])))
         c[key] += 1
-    return any(v >= 3 and v % 2 for v in c.values())
+        if kind == 't' and m.atom(centre).in_ring:
+            ring.add(key)
+    # odd groups are not differentiated at all; groups of four or more ring centres go through the ring fallback of
+    # __differentiation, which ranks them by traversal order (3:1 splits, partially labelled companion orbits)
+    return any(v >= 3 and (v % 2 or k in ring) for k, v in c.items())
 
 
 def _cycle_bonds(m):
@@ -346,6 +351,8 @@ def fused_cp_anion(m):
             for i, r in enumerate(rings):
                 if len(r) != 5 or n not in r:
                     continue
+                if a.atomic_number == 6 and any(m.atom(x).atomic_number in (7, 8, 15, 16) for x in r):
+                    return True  # carbanion on a hetero five-ring (pyrrolyl / furyl anion): not a cyclopentadienide at all
                 seen, stack = {i}, [i]
                 while stack:
                     k = stack.pop()
